@@ -63,6 +63,7 @@ func C13(c *Ctx) {
 	R15ErrDiscipline(c)
 	R8UTF16Encoder(c)
 	R15PackVerbatim(c)
+	R15FirstAddress(c)
 	R15WorkingHours(c)
 	R15NoCarry(c)
 	R15CountLoop(c)
